@@ -264,7 +264,63 @@ func cRecord(r *prng.Rand) CRecord {
 }
 
 // CTypeCount is the number of shared Go types GoValue / GoTarget know.
-const CTypeCount = 6
+const CTypeCount = 18
+
+// CTemp marshals itself through a pointer-receiver method, so whether the method is used depends on whether the
+// value the encoder meets is addressable (slice element, pointer) or not (map value, struct passed by value).
+type CTemp struct {
+	Deg int `ion:"deg"`
+}
+
+func (t *CTemp) MarshalIon(w ion.Writer) error { return w.WriteString(fmt.Sprintf("%dC", t.Deg)) }
+
+type CTempHolder struct {
+	T CTemp   `ion:"t"`
+	P *CTemp  `ion:"p"`
+	L []CTemp `ion:"l"`
+}
+
+// Annotation wrappers over several value kinds (the documented two-field form).
+type CAnnInt struct {
+	Value int
+	Ann   []ion.SymbolToken `ion:",annotations"`
+}
+type CAnnInt64 struct {
+	Value int64
+	Ann   []ion.SymbolToken `ion:",annotations"`
+}
+type CAnnF32 struct {
+	Value float32
+	Ann   []ion.SymbolToken `ion:",annotations"`
+}
+type CAnnF64 struct {
+	Value float64
+	Ann   []ion.SymbolToken `ion:",annotations"`
+}
+type CAnnStr struct {
+	Value string
+	Ann   []ion.SymbolToken `ion:",annotations"`
+}
+type CAnnSlice struct {
+	Value []int
+	Ann   []ion.SymbolToken `ion:",annotations"`
+}
+type CAnnArr struct {
+	Value [2]int
+	Ann   []ion.SymbolToken `ion:",annotations"`
+}
+type CAnnAny struct {
+	Value interface{}
+	Ann   []ion.SymbolToken `ion:",annotations"`
+}
+
+func cAnn(r *prng.Rand) []ion.SymbolToken {
+	var out []ion.SymbolToken
+	for k := r.Range(1, 2); k > 0; k-- {
+		out = append(out, ion.NewSymbolTokenFromString(cWord(r)))
+	}
+	return out
+}
 
 // GoValue builds a seeded value of the shared type number typ.
 func GoValue(typ int, r *prng.Rand) interface{} {
@@ -302,8 +358,36 @@ func GoValue(typ int, r *prng.Rand) interface{} {
 			out = append(out, cRecord(r))
 		}
 		return out
-	default:
+	case 5:
 		return map[string]interface{}{cWord(r): []interface{}{int64(r.Intn(50)), cWord(r), cPoint(r)}}
+	case 6:
+		return map[string]CTemp{cWord(r): {Deg: r.Intn(90)}} // map values are not addressable
+	case 7:
+		return []CTemp{{Deg: r.Intn(90)}, {Deg: r.Intn(90)}} // slice elements are
+	case 8:
+		return &CTemp{Deg: r.Intn(90)}
+	case 9:
+		h := CTempHolder{T: CTemp{Deg: r.Intn(90)}, P: &CTemp{Deg: r.Intn(90)}, L: []CTemp{{Deg: r.Intn(90)}}}
+		if r.Bool() {
+			return h // by value: field T is not addressable
+		}
+		return &h
+	case 10:
+		return CAnnInt{Value: r.Intn(1000), Ann: cAnn(r)}
+	case 11:
+		return CAnnInt64{Value: int64(r.Intn(1000)), Ann: cAnn(r)}
+	case 12:
+		return CAnnF32{Value: float32(r.Intn(64)) / 4, Ann: cAnn(r)}
+	case 13:
+		return CAnnF64{Value: float64(r.Intn(64)) / 4, Ann: cAnn(r)}
+	case 14:
+		return CAnnStr{Value: cWord(r), Ann: cAnn(r)}
+	case 15:
+		return CAnnSlice{Value: []int{r.Intn(9), r.Intn(9)}, Ann: cAnn(r)}
+	case 16:
+		return CAnnArr{Value: [2]int{r.Intn(9), r.Intn(9)}, Ann: cAnn(r)}
+	default:
+		return CAnnAny{Value: int64(r.Intn(9)), Ann: cAnn(r)}
 	}
 }
 
@@ -439,8 +523,32 @@ func GoTarget(typ int) interface{} {
 		return new(CAnnotatedRec)
 	case 4:
 		return new([]CRecord)
-	default:
+	case 5:
 		return new(map[string]interface{})
+	case 6:
+		return new(map[string]CTemp)
+	case 7:
+		return new([]CTemp)
+	case 8:
+		return new(CTemp)
+	case 9:
+		return new(CTempHolder)
+	case 10:
+		return new(CAnnInt)
+	case 11:
+		return new(CAnnInt64)
+	case 12:
+		return new(CAnnF32)
+	case 13:
+		return new(CAnnF64)
+	case 14:
+		return new(CAnnStr)
+	case 15:
+		return new(CAnnSlice)
+	case 16:
+		return new(CAnnArr)
+	default:
+		return new(CAnnAny)
 	}
 }
 
